@@ -81,8 +81,19 @@ type lenSim struct {
 	stores   map[string][]lform // tracked field name -> forms stored (deltas for accumulations)
 	storePos map[string]string
 	accum    map[string]bool // tracked field -> its store adds to the old value
-	writes   []string        // slice identities written to the sink, in program order
+	sites    map[string][]lenStore
+	writes   []string // slice identities written to the sink, in program order
 	depth    int
+}
+
+// lenStore: one store to a tracked field: what is stored (the delta for an accumulation), whether it adds to the old
+// value or initialises the field of an object allocated in the same function, and where.
+type lenStore struct {
+	form  lform
+	acc   bool
+	fresh bool
+	ins   *ssa.Store
+	pos   string
 }
 
 func (s *lenSim) sliceID(v ssa.Value, env *lenv) string {
@@ -328,8 +339,19 @@ func (s *lenSim) sim(fn *ssa.Function, env *lenv) {
 					s.accum = map[string]bool{}
 				}
 				s.accum[name] = acc
-				s.stores[name] = append(s.stores[name], s.form(val, env, 0))
+				fm := s.form(val, env, 0)
+				s.stores[name] = append(s.stores[name], fm)
 				s.storePos[name] = s.u.Pos(x.Pos())
+				fresh := false
+				if fa, ok := x.Addr.(*ssa.FieldAddr); ok {
+					if al, ok := fa.X.(*ssa.Alloc); ok && al.Heap {
+						fresh = true // a field of the struct literal the chunk's metadata starts from
+					}
+				}
+				if s.sites == nil {
+					s.sites = map[string][]lenStore{}
+				}
+				s.sites[name] = append(s.sites[name], lenStore{fm, acc, fresh, x, s.u.Pos(x.Pos())})
 			case *ssa.Call:
 				c := &x.Call
 				if c.IsInvoke() && c.Method.Name() == "Write" && s.ops.t.Has(c.Value) && len(c.Args) == 1 {
@@ -479,33 +501,57 @@ func laLen(c *Ctx, rule string) {
 		sort.Strings(names)
 		for _, name := range names {
 			k := key + " " + name
-			fs := s.stores[name]
-			if len(fs) != 1 {
-				r.bad(rule, k, pos, fmt.Sprintf("%d stores to %s per page, want exactly one", len(fs), name))
+			sts := s.sites[name]
+			if len(sts) == 0 {
+				r.bad(rule, k, pos, "no store to "+name+" per page")
 				continue
 			}
-			if strings.HasPrefix(name, "ColumnMetaData.") && !s.accum[name] {
-				r.bad(rule, k, s.storePos[name], name+" is overwritten per page, not accumulated: a chunk written as several pages keeps only its last page's size")
+			if why := sameLenPath(sts); why != "" {
+				r.bad(rule, k, pos, name+" is stored twice on one path ("+why+"): a page is counted twice")
 				continue
 			}
-			if got := fs[0].String(); got != want[name] {
-				r.bad(rule, k, s.storePos[name], fmt.Sprintf("%s is set to %s per page, but the bytes written require %s", name, human(got), human(want[name])))
-			} else {
-				r.ok(rule, k, s.storePos[name], name+" = "+human(got))
+			okAll := true
+			for _, st := range sts {
+				if strings.HasPrefix(name, "ColumnMetaData.") && !st.acc && !(st.fresh && len(sts) > 1) {
+					r.bad(rule, k, st.pos, name+" is overwritten per page, not accumulated: a chunk written as several pages keeps only its last page's size")
+					okAll = false
+					break
+				}
+				if got := st.form.String(); got != want[name] {
+					r.bad(rule, k, st.pos, fmt.Sprintf("%s is set to %s per page, but the bytes written require %s", name, human(got), human(want[name])))
+					okAll = false
+					break
+				}
+			}
+			if okAll {
+				r.ok(rule, k, sts[0].pos, name+" = "+human(sts[0].form.String()))
 			}
 		}
 		// value counts: header and chunk agree
-		h, ch := s.stores["DataPageHeader.NumValues"], s.stores["ColumnMetaData.NumValues"]
+		h, ch := s.sites["DataPageHeader.NumValues"], s.sites["ColumnMetaData.NumValues"]
 		k := key + " NumValues"
 		switch {
-		case len(h) != 1 || len(ch) != 1:
+		case len(h) != 1 || len(ch) == 0:
 			r.bad(rule, k, pos, fmt.Sprintf("%d/%d stores of the value count in header/chunk per page", len(h), len(ch)))
-		case !s.accum["ColumnMetaData.NumValues"]:
-			r.bad(rule, k, s.storePos["ColumnMetaData.NumValues"], "the chunk's num_values is overwritten per page, not accumulated: a chunk written as several pages reports only its last page's values")
-		case h[0].top != "" || h[0].String() != ch[0].String():
-			r.bad(rule, k, s.storePos["ColumnMetaData.NumValues"], "page header num_values is "+h[0].String()+" but the chunk's num_values grows by "+ch[0].String())
+		case sameLenPath(ch) != "":
+			r.bad(rule, k, pos, "the chunk's num_values is stored twice on one path ("+sameLenPath(ch)+"): a page is counted twice")
 		default:
-			r.ok(rule, k, s.storePos["ColumnMetaData.NumValues"], "header num_values and chunk num_values increment are the same quantity: "+h[0].String())
+			bad := false
+			for _, st := range ch {
+				if !st.acc && !(st.fresh && len(ch) > 1) {
+					r.bad(rule, k, st.pos, "the chunk's num_values is overwritten per page, not accumulated: a chunk written as several pages reports only its last page's values")
+					bad = true
+					break
+				}
+				if h[0].form.top != "" || h[0].form.String() != st.form.String() {
+					r.bad(rule, k, st.pos, "page header num_values is "+h[0].form.String()+" but the chunk's num_values grows by "+st.form.String())
+					bad = true
+					break
+				}
+			}
+			if !bad {
+				r.ok(rule, k, ch[0].pos, "header num_values and chunk num_values increment are the same quantity: "+h[0].form.String())
+			}
 		}
 	}
 	r.count(rule+"/page-writers", n)
@@ -1340,4 +1386,31 @@ func isWriteMethodCall(cc *ssa.CallCommon) bool {
 	}
 	b, ok := sl.Elem().Underlying().(*types.Basic)
 	return ok && b.Kind() == types.Uint8
+}
+
+// sameLenPath: two of the stores can execute on one path through one call (same function and one block reaches the
+// other, or they sit in different functions) — "" when they are alternatives of one another.
+func sameLenPath(sts []lenStore) string {
+	for i := 0; i < len(sts); i++ {
+		for j := i + 1; j < len(sts); j++ {
+			a, b := sts[i].ins, sts[j].ins
+			if a.Parent() != b.Parent() {
+				return sts[i].pos + " and " + sts[j].pos
+			}
+			if a.Block() == b.Block() {
+				return sts[i].pos + " and " + sts[j].pos
+			}
+			for _, x := range reachableBlocks(a.Block()) {
+				if x == b.Block() {
+					return sts[i].pos + " and " + sts[j].pos
+				}
+			}
+			for _, x := range reachableBlocks(b.Block()) {
+				if x == a.Block() {
+					return sts[i].pos + " and " + sts[j].pos
+				}
+			}
+		}
+	}
+	return ""
 }
